@@ -287,7 +287,8 @@ impl State {
                 .borrow()
                 .iter()
                 .map(|w| match w.upgrade() {
-                    Some(o) => format!("o{}", o.id().verif_usize()),
+                    // not yet in all_observers: dump in full (state, subscriptions)
+                    Some(o) => o.verif_dump(),
                     None => "o-dead".into(),
                 })
                 .collect(),
